@@ -635,6 +635,9 @@ func (s *Subtitles) Merge(i *Subtitles) {
 	// Add regions
 	for _, region := range i.Regions {
 		if _, ok := s.Regions[region.ID]; !ok {
+			if s.Regions == nil {
+				s.Regions = make(map[string]*Region)
+			}
 			s.Regions[region.ID] = region
 		}
 	}
@@ -642,6 +645,9 @@ func (s *Subtitles) Merge(i *Subtitles) {
 	// Add styles
 	for _, style := range i.Styles {
 		if _, ok := s.Styles[style.ID]; !ok {
+			if s.Styles == nil {
+				s.Styles = make(map[string]*Style)
+			}
 			s.Styles[style.ID] = style
 		}
 	}
